@@ -71,6 +71,7 @@ class SimParamSource:
             "soft_fail": str(seq) in (self.plan.get("soft_fail") or {}),
             "raise": (self.plan.get("runner_raise") or {}).get(str(seq)),
             "throughput": _cyc(self.plan.get("throughput"), seq, None),
+            "completes_after": self.plan.get("completes_after"),
         }
         return p
 
@@ -125,6 +126,35 @@ class SimRunner:
 
     def __repr__(self):
         return "sim-op"
+
+
+class SimPollRunner(SimRunner):
+    """A runner that decides itself when the task is over (``completed`` / ``percent_completed``), like Rally's polling
+    runners.  The state is the one of the last call; the executor reads it right after the call returned (no await in between)."""
+
+    def __init__(self):
+        self._completed = False
+        self._progress = 0.0
+
+    @property
+    def completed(self):
+        return self._completed
+
+    @property
+    def percent_completed(self):
+        return self._progress
+
+    async def __call__(self, es, params):
+        ret = await super().__call__(es, params)
+        req = params["sim-req"]
+        after = req.get("completes_after")
+        k = req["seq"] + 1
+        self._completed = after is not None and k >= after
+        self._progress = min(1.0, k / after) if after else 0.0
+        return ret
+
+    def __repr__(self):
+        return "sim-poll"
 
 
 class TraceLog:
